@@ -8,6 +8,7 @@ import CatiiProofs.Update
 import CatiiProofs.Queries
 import CatiiProofs.FromArrayWf
 import CatiiProofs.ColumnStack
+import CatiiProofs.Reindexed
 /-!
 # C06 — index operations track NumPy on the dense array over any history
 
@@ -17,11 +18,12 @@ far are `copy`, `shift_common()` / `shift_common(v)` (identity on the dense arra
 — frequent, rare or absent), `append(other)` (concatenation, for any pair of common values and any
 row counts incl. 0, while the combined rows fit 32 bits), `filtered(mask, n)` (boolean row selection, any
 mask), `update(entries)` (cell assignment by any consistent dictionary of cells, incl. cells set to the
-common value), the three entry-wise set updates (through the verified kernels of C08), the forced queries `get(key, force=True)` /
+common value), `reindexed(mapping)` (element-wise value mapping: injective, many-to-one, onto the common value,
+or the default), the three entry-wise set updates (through the verified kernels of C08), the forced queries `get(key, force=True)` /
 `common_rowids`, `column_stack` (= `numpy.column_stack`, any mix of inputs and commons) and construction from
 arrays (C01);
 `history_partial` lifts them to arbitrary finite sequences against a NumPy-side specification
-(`specRun`).  The remaining operations of the property (sliced, slices1d, reindexed, collapsed,
+(`specRun`).  The remaining operations of the property (sliced, slices1d, collapsed,
 `items`/`to_dict(force=True)`) are modelled in `CatiiModel/IIndex.lean` statement by statement and are tied to
 the real code by the correspondence harness after **every** step of every generated history,
 with the NumPy reference semantics as the oracle on the real code; their refinement lemmas are
@@ -33,6 +35,7 @@ open Catii.IIdx
 /-- operations covered by theorems so far -/
 inductive Op | copy | shift (v : Option Int) | append (other : IIndex) | filtered (mask : List Bool) (newLength : Nat)
   | update (ents : List (Key × Rows))
+  | reindexed (m : List (Int × Int)) (shift : Bool)
 
 def apply (i : IIndex) : Op → M IIndex
   | .copy => pure (IIdx.copy i)
@@ -40,6 +43,7 @@ def apply (i : IIndex) : Op → M IIndex
   | .append o => IIdx.append i o
   | .filtered mask n' => IIdx.filtered i mask n'
   | .update ents => IIdx.update i ents
+  | .reindexed m shift => IIdx.reindexed i (some m) shift false
 
 def run : IIndex → List Op → M IIndex
   | i, [] => pure i
@@ -59,6 +63,7 @@ def specStep (d : Dense) : Op → Dense
       | some r => d.2 r hi
       | none => 0)
   | .update ents => (d.1, fun r hi => assigned ents r hi (d.2 r hi))
+  | .reindexed m _ => (d.1, fun r hi => reVal m (d.2 r hi))
 
 def specRun (d : Dense) (ops : List Op) : Dense := ops.foldl specStep d
 
@@ -73,6 +78,7 @@ def OpsOK (hiShape : List Nat) : Nat → List Op → Prop
      (∀ e ∈ ents, e.1.length = hiShape.length + 1) ∧ (∀ e ∈ ents, e.1.drop 1 ∈ hiCells hiShape) ∧
      (∀ e ∈ ents, ∀ f ∈ ents, e.1.drop 1 = f.1.drop 1 → ∀ r, r ∈ e.2 → r ∈ f.2 → val0 e.1 = val0 f.1)) ∧
     OpsOK hiShape n ops
+  | n, .reindexed _ _ :: ops => OpsOK hiShape n ops
   | n, _ :: ops => OpsOK hiShape n ops
 
 /-- an index *represents* a dense array -/
@@ -148,6 +154,12 @@ theorem step_refines (i : IIndex) (hiShape : List Nat) (d : Dense) (h : Represen
     refine ⟨hw', hs'.trans hs, fun row hrow hi hhi => ?_⟩
     simp only [specStep] at hrow ⊢
     rw [hd' row hi, hd row hrow hi hhi]
+  | reindexed m shift =>
+    obtain ⟨hw', hs', hd'⟩ := reindexed_refines i hw hnd' (some m) shift r hr
+    refine ⟨hw', hs'.trans hs, fun row hrow hi hhi => ?_⟩
+    simp only [specStep] at hrow ⊢
+    rw [hd' row (by rw [hn]; exact hrow) hi (by rw [hdrop]; exact hhi), hd row hrow hi hhi]
+    rfl
 
 /-- **any finite history** of the covered operations: the index reached represents the array NumPy reaches -/
 theorem history_partial (i : IIndex) (hiShape : List Nat) (d : Dense) (h : Represents i hiShape d)
@@ -171,6 +183,7 @@ theorem history_partial (i : IIndex) (hiShape : List Nat) (d : Dense) (h : Repre
         | append o => exact ⟨hok.1, hok.2.1, hok.2.2.1, trivial⟩
         | filtered mask n' => exact ⟨hok.1, hok.2.1, trivial⟩
         | update ents => exact ⟨hok.1, trivial⟩
+        | reindexed m shift => trivial
       have hj := step_refines i hiShape d h hnd op hok1 j hs
       have hok2 : OpsOK hiShape (specStep d op).1 ops := by
         cases op with
@@ -181,6 +194,7 @@ theorem history_partial (i : IIndex) (hiShape : List Nat) (d : Dense) (h : Repre
           show OpsOK hiShape (mask.filter id).length ops
           rw [← hok.2.1]; exact hok.2.2
         | update ents => exact hok.2
+        | reindexed m shift => exact hok
       exact ih j (specStep d op) hj hok2 hr
 
 /-- every well-formed index represents its own dense array -/
@@ -234,6 +248,14 @@ theorem difference_update_entrywise (i : IIndex) (other : List (Key × Rows)) (h
       ∀ k r, Listed res.entries k r ↔ Listed i.entries k r ∧ ¬ Listed other k r := by
   obtain ⟨res, h1, h2, h3, _, _, _, h6⟩ := differenceUpdate_spec i other h.keys h.sorted ho
   exact ⟨res, h1, h2, h3, h6⟩
+
+/-- `reindexed()` with the default mapping (the k-th smallest listed value ↦ k, the common value kept) is the
+same element-wise mapping, with the mapping read off the index -/
+theorem reindexed_default_mapping (i : IIndex) (h : WF i) (hnd : i.ndim ≤ 2) (shift : Bool) (res : IIndex)
+    (hr : reindexed i none shift false = .ok res) :
+    WF res ∧ res.shape = i.shape ∧ ∀ r < i.nrows, ∀ hi ∈ hiCells (i.shape.drop 1),
+      denseAt res r hi = reVal (reMapping i none) (denseAt i r hi) :=
+  reindexed_refines i h hnd none shift res hr
 
 /-! ### column_stack -/
 
